@@ -12,6 +12,8 @@ Decided (ALIAS: flow-sensitive may-alias/ownership analysis with bottom-up calle
                   function-level cache (lru_cache) or mutable default argument.
 Not decided: rows obtained by pure-integer indexing / tuple unpacking / iteration are treated as
 immutable elements (true for the rank-1 inputs the API documents).
+Added after the seeding rounds (DESIGN.md 6.6-6.8):
+ CONFIG-FROZEN / RECOMPUTED (shared with C13): per-sample methods never re-tune the filter.
 """
 import ast
 from sa.flow import Alias, ann_is_scalar
